@@ -141,6 +141,11 @@ func C04(c *Ctx) {
 	gs := c04Strata()
 	for i := 0; i < ng; i++ {
 		g := gast.Generate(rng, profs[i%3])
+		if i%3 == 1 && i%2 == 1 {
+			// state blocks that reach the store only through a helper kept in another file of the package:
+			// nothing in the grammar file mentions it, the state blocks alone make the parser keep its state machinery
+			g.IndirectState, g.StateHelperExtern = true, true
+		}
 		renameRules(g, c04Names[i%len(c04Names)])
 		gs = append(gs, g)
 	}
